@@ -15,7 +15,7 @@
    "r is missing OR expired at the start".  `grid_sys g ..` = `grid_sys_x g .. false (fun _ => None)`. *)
 From Coq Require Import ZArith List Bool Arith Ascii.
 Import ListNotations.
-From MP Require Import Base Creator Creator_proofs.
+From MP Require Import Base Creator Creator_proofs Creator_commute.
 
 (* The upstream is asked at most once per meta tile - for any number of requesters, any request lists, any
    initial cache with correct content, with or without an expire timestamp and expired files, and any
@@ -70,18 +70,42 @@ Theorem meta_tiles_partition :
     (g_main g u = g_main g t <-> In u (g_members g (g_main g t))).
 Proof. exact grid_main_same_iff. Qed.
 
-(* ... and a lock attempt is refused only while ANOTHER requester is inside the critical section of the same
-   lock file; requesters of different meta tiles never make each other wait.
-   _partial: the commutation of steps of requesters working on different meta tiles (same final state in either
-   order) is not proved; that they cannot corrupt each other follows from final_cache_exact /
-   all_responses_correct, which hold for every interleaving. *)
-Theorem different_meta_tiles_independent_partial :
+(* ... a lock attempt is refused only while ANOTHER requester is inside the critical section of the same lock
+   file; requesters of different meta tiles never make each other wait ... *)
+Theorem lock_refused_only_by_holder :
   forall g reload up expire old c0 reqs sched p k,
     valid_gconf g -> valid_reqs g reqs -> content_ok up c0 -> old_ok expire old ->
     let s := run (grid_sys_x g true reload up expire old) (init c0 reqs) sched in
     snd (step (grid_sys_x g true reload up expire old) s p) = OLock k false ->
     exists q prq m, q <> p /\ nth_error (procs s) q = Some prq /\ holds (p_pc prq) = Some m /\ g_key g m = k.
 Proof. exact grid_refused. Qed.
+
+(* ... and they do not influence each other at all: at every reachable state the next steps of two requesters that are
+   creating / waiting for DIFFERENT meta tiles (`working` = the unit of the loop over the uncached tiles / meta tiles)
+   commute - in either order both make the same observations and reach the same local states, and cache, lock
+   table and upstream log are the same (`sequiv`: equal as maps, log equal up to the order of the two entries). *)
+Theorem different_meta_tiles_independent :
+  forall g reload up expire old c0 reqs sched p q prp prq mp mq,
+    valid_gconf g -> valid_reqs g reqs -> content_ok up c0 -> old_ok expire old ->
+    let S := grid_sys_x g true reload up expire old in
+    let s := run S (init c0 reqs) sched in
+    p <> q -> nth_error (procs s) p = Some prp -> nth_error (procs s) q = Some prq ->
+    working (p_pc prp) = Some mp -> working (p_pc prq) = Some mq -> mp <> mq ->
+    snd (step S (fst (step S s p)) q) = snd (step S s q) /\
+    snd (step S (fst (step S s q)) p) = snd (step S s p) /\
+    sequiv (fst (step S (fst (step S s p)) q)) (fst (step S (fst (step S s q)) p)).
+Proof. exact grid_units_commute. Qed.
+
+(* The general form: any two steps that do not read and write (or both write) one tile and do not operate on one
+   lock file commute, in every state. *)
+Theorem independent_steps_commute :
+  forall S s p q prp prq,
+    p <> q -> nth_error (procs s) p = Some prp -> nth_error (procs s) q = Some prq ->
+    indep (fp S prp) (fp S prq) ->
+    snd (step S (fst (step S s p)) q) = snd (step S s q) /\
+    snd (step S (fst (step S s q)) p) = snd (step S s p) /\
+    sequiv (fst (step S (fst (step S s p)) q)) (fst (step S (fst (step S s q)) p)).
+Proof. exact step_commute. Qed.
 
 (* No deadlock: whenever a lock attempt is refused, some other requester can take a step that is not a refused
    lock attempt (the holder is inside its critical section, where it never waits for a second lock). *)
